@@ -37,6 +37,7 @@ def realize(o, typ="campaign"):
             args[prop] = copy.deepcopy(a if val == "a" else b)
     if kind == "sco5":
         args.update(created=O.us(o["created"]), modified=O.us(o["modified"]), revoked=bool(o["revoked"]), allow_custom=True)
+        args["hashes"] = {"MD5": "d41d8cd98f00b204e9800998ecf8427e"}     # so that the object stays constructible without its name (removal must be refused for the right reason)
         return stix2.v21.File(**args)
     cls, base, _ = O.TABLES[v][typ]
     full = copy.deepcopy(base)
@@ -69,7 +70,7 @@ def concrete_changes(ch, o, typ):
             prop, a, b = roles[name]
             kw[prop] = None if val == "none" else copy.deepcopy(a if val == "a" else b)
         else:
-            kw[name] = UNMOD_VALUES[name](typ)
+            kw[name] = None if val == "none" else UNMOD_VALUES[name](typ)      # asking to remove an unmodifiable property is a change to it, too
     return kw
 
 
@@ -132,7 +133,7 @@ def serialized_modified(conc, v):
         d = json.loads(conc.serialize())
         return O.rel_us(d.get("modified") or d["created"])
     # a dictionary: serialize its modified value through an object of that spec version
-    value = conc.get("modified") or conc["created"]
+    value = conc.get("modified") or conc.get("created") or O.us(-2000000000)
     carrier = O.module(v).Campaign(name="carrier", created=value, modified=value)
     return O.rel_us(json.loads(carrier.serialize())["modified"])
 
@@ -149,11 +150,11 @@ def project(conc, o, typ):
             props[role] = "a" if val == O.plain(a) else "b" if val == O.plain(b) else "other:" + json.dumps(val, sort_keys=True)[:60]
     if o["kind"] in ("unversionable", "dict_nocreated"):
         return dict(o)
-    created = O.rel_us(conc["created"])
+    created = O.rel_us(conc["created"]) if "created" in conc else -2000000000       # total: a result that lost `created` projects to a value no object has
     hasmod = "modified" in conc
     return {"v": o["v"], "kind": o["kind"], "created": created, "modified": O.rel_us(conc["modified"]) if hasmod else created,
             "hasmod": hasmod, "revoked": bool(conc.get("revoked")), "props": props}
 
 
 def same_identity(a, b):
-    return a["id"] == b["id"] and a["type"] == b["type"] and a.get("created_by_ref") == b.get("created_by_ref")
+    return a.get("id") == b.get("id") and a.get("type") == b.get("type") and a.get("created_by_ref") == b.get("created_by_ref")
